@@ -72,6 +72,69 @@ Theorem C06_ok_iff_compat : forall ds, ds_shape_prop ds -> ds_local_prop ds ->
 Proof. exact ok_iff_compat. Qed.
 Print Assumptions C06_ok_iff_compat.
 
+(* The source scale as a chunk STORE with fallible reads (the accessor fetch and
+   the decoder behind chunk_reader.read_chunk; load_and_downscale_old_chunk has
+   no try/except).  (a) Refinement: when every chunk of the old grid reads as
+   the corresponding slice of a level array, the store variant IS the array
+   variant, so every theorem above applies to it. *)
+Theorem C06_store_refines_array : forall ds g src lvl,
+  src_agrees g src lvl -> tile_level_src ds g src = tile_level ds g lvl.
+Proof. exact tile_level_src_refines. Qed.
+Print Assumptions C06_store_refines_array.
+
+Theorem C06_store_of_complete_level : forall ds g lvl,
+  tile_level_src ds g (src_of_level lvl) = tile_level ds g lvl.
+Proof. exact tile_level_src_of_level. Qed.
+Print Assumptions C06_store_of_complete_level.
+
+(* every chunk of the old grid is needed by some assignment of some new chunk
+   when the pair is compat *)
+Theorem C06_every_source_chunk_needed : forall g, compat g = true ->
+  forall j, in_old_grid g j = true ->
+  exists idx b, In idx (ndindex (chunk_range g)) /\ In b octants /\
+    forall3_3 ax_cond b (sub3 (new_hi g idx) (new_lo g idx)) (half_chunk g) = true /\
+    add3 (mul3 idx (fetch_factor g)) b = j.
+Proof. exact old_chunk_needed. Qed.
+Print Assumptions C06_every_source_chunk_needed.
+
+(* (b) "If a pair of scales cannot be processed, the tool fails with an error
+   instead of writing wrong data", data side: on a compat pair whose store
+   returns, for each chunk of the old grid, either the slice that was written
+   or a failure, ONE unreadable chunk of the old grid makes the transition not
+   Ok; its outcome is the error of a read that failed (same class), nothing
+   else is returned. *)
+Theorem C06_fails_on_unreadable_source : forall ds, ds_shape_prop ds ->
+  forall g lvl src, a_c lvl = g_ch g -> compat g = true ->
+  (forall lo hi, validate_chunk_coords (g_os g) (g_oc g) lo hi = true ->
+     src lo hi = Ok (restrict lvl lo (sub3 hi lo)) \/ (forall a, src lo hi <> Ok a)) ->
+  forall j, in_old_grid g j = true ->
+  (forall a, src (old_chunk_lo g j) (old_chunk_hi g j) <> Ok a) ->
+  (forall chunks, tile_level_src ds g src <> Ok chunks) /\
+  failed_read g src (tile_level_src ds g src).
+Proof. exact fails_on_unreadable_source. Qed.
+Print Assumptions C06_fails_on_unreadable_source.
+
+(* and with no unreadable chunk the same transition is all written or - never,
+   by C06_store_refines_array + C06_tiling_exact - a failed read *)
+Theorem C06_store_outcomes : forall ds, ds_shape_prop ds ->
+  forall g lvl src, a_c lvl = g_ch g -> compat g = true ->
+  (forall lo hi, validate_chunk_coords (g_os g) (g_oc g) lo hi = true ->
+     src lo hi = Ok (restrict lvl lo (sub3 hi lo)) \/ (forall a, src lo hi <> Ok a)) ->
+  (exists chunks, tile_level_src ds g src = Ok chunks) \/ failed_read g src (tile_level_src ds g src).
+Proof. exact level_src_cases. Qed.
+Print Assumptions C06_store_outcomes.
+
+(* (c) non-vacuity: a compat transition whose old chunk at (4,0,0) cannot be
+   fetched ends in AccessErr; with the complete store it is Ok *)
+Example C06_fails_on_unreadable_source_example :
+  compat src_example_geom = true /\ in_old_grid src_example_geom (1, 0, 0) = true /\
+  a_c src_example_level = g_ch src_example_geom /\
+  src_example_store (old_chunk_lo src_example_geom (1, 0, 0)) (old_chunk_hi src_example_geom (1, 0, 0))
+    = AccessErr /\
+  tile_level_src ds_avg src_example_geom src_example_store = AccessErr /\
+  (exists chunks, tile_level_src ds_avg src_example_geom (src_of_level src_example_level) = Ok chunks).
+Proof. exact fails_on_unreadable_source_example. Qed.
+
 (* The level read back after one transition (whatever np.empty contained). *)
 Theorem C06_next_level_exact : forall ds poison, ds_shape_prop ds -> ds_local_prop ds ->
   forall ch s0 s1 lvl,
